@@ -561,3 +561,12 @@ Proof.
   { apply dsin_pos. split; [apply Rdiv_lt_0_compat; lra|]. apply (Rmult_lt_reg_r (IZR n)); [lra|]. unfold Rdiv. rewrite Rmult_assoc, Rinv_l by lra. lra. }
   assert (0 < inner * outer) by nra. assert (0 < IZR n * (inner * outer)) by nra. nra.
 Qed.
+
+(* sin x + sin y - sin (x + y) = 4 sin(x/2) sin(y/2) sin((x+y)/2) *)
+Lemma three_sines x y : dsin x + dsin y - dsin (x + y) = 4 * dsin (x / 2) * dsin (y / 2) * dsin ((x + y) / 2).
+Proof.
+  replace x with (x / 2 + x / 2) at 1 by field. replace y with (y / 2 + y / 2) at 1 by field.
+  replace (x + y) with ((x / 2 + y / 2) + (x / 2 + y / 2)) at 1 by field. replace ((x + y) / 2) with (x / 2 + y / 2) by field.
+  rewrite !dsin_plus, !dcos_plus. pose proof (dsin2_dcos2 (x / 2)) as Hx. pose proof (dsin2_dcos2 (y / 2)) as Hy.
+  revert Hx Hy. generalize (dsin (x / 2)) (dcos (x / 2)) (dsin (y / 2)) (dcos (y / 2)). intros sx cx sy cy Hx Hy. nsatz.
+Qed.
